@@ -24,6 +24,9 @@ def main():
         ctl = json.load(f)
     ctl['calls'] = ctl.get('calls', 0) + 1
     k = ctl['calls']
+    srcp = args[-2]
+    base = os.path.basename(srcp.rstrip('/'))
+    ctl.setdefault('steps', []).append('rest' if srcp.endswith('/') else 'copydump' if base == 'packs.idx' else base)
     with open(ctl_path, 'w') as f:
         json.dump(ctl, f)
     todo = [p for p in ctl['plan'] if p['call'] == k]
